@@ -84,7 +84,9 @@ def plan_stream(rng, cipher, mac, comp, role, suites, quick):
     rekey_at = sorted(rng.randint(0, nm) for _ in range(extra))
     epochs = [(cipher, mac)]
     for _ in range(extra):
-        epochs.append(rng.choice(suites) if rng.random() < 0.3 else (cipher, mac))
+        # half of the key switches change the suite, to a uniformly drawn framing family (all ordered pairs occur)
+        epochs.append(rng.choice(BYFAM[rng.choice([f for f in pb.FAMILIES if BYFAM[f]])])
+                      if rng.random() < 0.5 else (cipher, mac))
     # reverse-direction suite per epoch, drawn independently (family cycles with the draw counter)
     rev_epochs = [pb.draw_reverse(rng, rng.randrange(3), BYFAM) for _ in epochs]
     want_auth = rng.random() < (0.85 if comp == "zlib@openssh.com" else 0.2)
@@ -179,6 +181,8 @@ def judge_stream(ctx, rng, p, b):
     ctx.count("streams_decoded")
     for (fc, fm), (rc, rm) in zip(p["epochs"], p["rev_epochs"]):
         ctx.count("epochs_rx_in_%s_out_%s" % (mode_of(fc, fm), mode_of(rc, rm)))
+    for (a1, a2), (b1, b2) in zip(p["epochs"], p["epochs"][1:]):
+        ctx.count("epoch_family_transitions_seen_%s_to_%s" % (mode_of(a1, a2), mode_of(b1, b2)))
     ctx.count("socket_hiccups_injected", rx.sock.hiccups + b.sock.hiccups)
     if p["banner"]:
         ctx.count("streams_with_banner_remainder")
@@ -397,6 +401,7 @@ def run(ctx):
         for fo in pb.FAMILIES:
             if BYFAM[fi] and BYFAM[fo]:
                 ctx.require("epochs_rx_in_%s_out_%s" % (fi, fo), 60)
+                ctx.require("epoch_family_transitions_seen_%s_to_%s" % (fi, fo), 20)
     ctx.require("needrekey_exceptions_seen", 300)
     ctx.require("headers_split_with_timeout_while_rekey_pending", 300)
     ctx.require("socket_hiccups_injected", 500)
